@@ -1,12 +1,14 @@
 use crate::engine::{CaseResult, Tier};
 pub mod c01;
 pub mod c03;
+pub mod c13;
 pub mod common;
 
 pub fn run(id: &str, tier: Tier, seed: u64) -> i32 {
     match id {
         "C01" => c01::run(tier, seed),
         "C03" => c03::run(tier, seed),
+        "C13" => c13::run(tier, seed),
         _ => {
             eprintln!("no check for {}", id);
             2
@@ -18,6 +20,7 @@ pub fn replay(id: &str, case: &serde_json::Value) -> CaseResult {
     match id {
         "C01" => c01::replay(case),
         "C03" => c03::replay(case),
+        "C13" => c13::replay(case),
         _ => panic!("no check for {}", id),
     }
 }
